@@ -180,6 +180,14 @@ def d2(ctx, F):
                 bad_edge = sc["true"] if sc.get("neg") else sc["false"]
                 r = cr.reachable(bad_edge)
                 okc = not [1 for _, _, _, rv, _ in K.aggregates(cr, "core::result::Result", r) if rv["variant"] == "Ok"]
+    if ivc and not okc:
+        # `s.is_valid().then_some(s).ok_or(err)`: the Ok value exists only when the test held
+        for c in cr.calls():
+            if strip_generics(c.callee) in ("core::bool::<impl bool>::then_some", "core::bool::<impl bool>::then") and flow.root(cr, c.args[0])[0] == "call" and flow.root(cr, c.args[0])[1] is ivc[0]:
+                tv = flow.derived(cr, {c.dest["l"]}, calls=("core::option::Option::ok_or", "core::option::Option::ok_or_else"))
+                oks = [1 for _, _, _, rv, _ in K.aggregates(cr, "core::result::Result") if rv["variant"] == "Ok"]
+                if 0 in tv and not oks:
+                    okc = True
     ctx.check(okc, "C07.D2.create-validates", "create:not-validated", "TopicName::create returns Ok only when is_valid() holds", cr.span)
 
 
@@ -258,6 +266,10 @@ def d4(ctx, F):
     # would get end-of-stream instead of the error frame)
     from .. import panics as _pn
     _pn.analyse(ctx, [hs], "C07.D4.refusal-no-panic", skip=lambda site: site.bb not in excl, include_alloc=False)
+    # the refusal is reachable: nothing in front of the server's own check (serde, the frame decoder) already rejects such a name
+    from . import c05
+    c05.d1_serde_plain(ctx, F)
+    c05.d1_decoder_plain(ctx, F, "C07.D4")
     # error codes pairwise distinct
     codes = {p: c["value"].get("int") for p, c in F.consts.items() if p.startswith("selium_protocol::error_codes::") and "value" in c}
     ctx.floor("C07.D4.error-codes", len(codes), 7)
